@@ -111,6 +111,11 @@ func runC20(c *Ctx) {
 			sp = &ordset{norm: func(s string) string { return s }}
 		}
 		var alias []string
+		defer func() {
+			if r := recover(); r != nil {
+				c.violation(kind+" list operation panicked: "+fmt.Sprint(r), map[string]interface{}{"list": kind, "history": ops})
+			}
+		}()
 		for _, o := range ops {
 			if o.Kind == "add" {
 				impl.Add(o.Args...)
@@ -202,6 +207,74 @@ func runC20(c *Ctx) {
 			ops = append(ops, lop{kind, args})
 		}
 		one("cidr", ops, i < 100)
+	}
+	// long lists: many distinct entries (added in one call or one by one), then removals of several present entries
+	// in one call, given in any order (list order, reverse, first and last together), interleaved with further adds
+	for _, kind := range []string{"tag", "str", "cidr"} {
+		for _, size := range []int{8, 20, 33, 40, 64, 130} {
+			for rep := 0; rep < 6; rep++ {
+				var all []string
+				for i := 0; i < size; i++ {
+					all = append(all, fmt.Sprintf("tag-%03d", i))
+				}
+				var ops []lop
+				if rep%2 == 0 {
+					ops = append(ops, lop{"add", append([]string{}, all...)})
+				} else {
+					for _, a := range all {
+						ops = append(ops, lop{"add", []string{a}})
+					}
+				}
+				present := append([]string{}, all...)
+				for step := 0; step < 4; step++ {
+					k := 2 + c.Rng.Intn(5)
+					var args []string
+					switch (rep + step) % 4 {
+					case 0: // the last entry, then the first
+						args = []string{present[len(present)-1], present[0]}
+					case 1: // descending positions
+						for j := 0; j < k && j*3 < len(present); j++ {
+							args = append(args, present[len(present)-1-j*3])
+						}
+					default: // any order, written in another letter case and padded (tags and networks are normalised)
+						for _, j := range permute(c.Rng, len(present)) {
+							if len(args) < k {
+								a := present[j]
+								if kind != "str" && len(args)%2 == 1 {
+									a = " " + strings.ToUpper(a)
+								}
+								args = append(args, a)
+							}
+						}
+					}
+					ops = append(ops, lop{"remove", args})
+					gone := map[string]bool{}
+					for _, a := range args {
+						gone[strings.ToLower(strings.TrimSpace(a))] = true
+					}
+					var rest []string
+					for _, p := range present {
+						if !gone[p] {
+							rest = append(rest, p)
+						}
+					}
+					present = rest
+					if step == 1 {
+						ops = append(ops, lop{"add", []string{"later-1", all[0], "later-2"}})
+						present = append(present, "later-1")
+						if gone[all[0]] || !containsStr(present, all[0]) {
+							present = append(present, all[0])
+						}
+						present = append(present, "later-2")
+					}
+					if len(present) < 8 {
+						break
+					}
+				}
+				one(kind, ops, size <= 40 && rep < 2)
+				c.count("long_list_multi_remove")
+			}
+		}
 	}
 	c.sum.Exhaustive = true
 	// random long histories with multi-argument calls, observed after every step
@@ -350,4 +423,13 @@ func runC20(c *Ctx) {
 	wc.flush()
 	c.sum.DistinctNontriv = len(distinct)
 	c.sum.Rule = fmt.Sprintf("all add/remove histories over the 7-string alphabet {a, A, ' a ', b, 'B ', '', c}: TagList up to length %d, StringList and CIDRList (Add/Remove/Contains as a lower-cased trimmed set) up to length %d (exhaustive), contents and 7 Contains probes; random histories of 5-40 multi-argument steps observed after every step; random source-network entry lists in both JSON forms; non-trivial = distinct history leaving a non-empty list / distinct multi-entry network list", maxTag, maxStr)
+}
+
+func containsStr(l []string, x string) bool {
+	for _, y := range l {
+		if y == x {
+			return true
+		}
+	}
+	return false
 }
